@@ -841,9 +841,7 @@ fn resolve_names_item_decl(ctx: &mut StaticsContext, symbol_table: &SymbolTable,
         ItemKind::TypeDef(tydef) => match tydef {
             TypeDefKind::Enum(enum_def) => {
                 let symbol_table = symbol_table.new_scope();
-                for ty_arg in &enum_def.ty_args {
-                    resolve_names_polytyp(ctx, &symbol_table, ty_arg, true);
-                }
+                resolve_names_type_params(ctx, &symbol_table, &enum_def.ty_args);
                 for variant in &enum_def.variants {
                     for field in &variant.fields {
                         resolve_names_typ(ctx, &symbol_table, &field.ty, false);
@@ -855,9 +853,7 @@ fn resolve_names_item_decl(ctx: &mut StaticsContext, symbol_table: &SymbolTable,
             }
             TypeDefKind::Struct(struct_def) => {
                 let symbol_table = symbol_table.new_scope();
-                for ty_arg in &struct_def.ty_args {
-                    resolve_names_polytyp(ctx, &symbol_table, ty_arg, true);
-                }
+                resolve_names_type_params(ctx, &symbol_table, &struct_def.ty_args);
                 for field in &struct_def.fields {
                     resolve_names_typ(ctx, &symbol_table, &field.ty, false);
                     if let Some(default_val) = &field.default_val {
@@ -1798,6 +1794,27 @@ fn resolve_names_typ(
                 resolve_names_typ(ctx, symbol_table, elem, introduce_poly);
             }
         }
+    }
+}
+
+// the type parameters of a type definition: `type Pair<T, U> = ..`
+fn resolve_names_type_params(
+    ctx: &mut StaticsContext,
+    symbol_table: &SymbolTable,
+    ty_args: &[Rc<Polytype>],
+) {
+    for ty_arg in ty_args {
+        if let Some(original @ Declaration::Polytype(_)) =
+            symbol_table.lookup_declaration(&ty_arg.name.v)
+        {
+            // the same parameter name twice
+            ctx.errors.push(Error::NameClash {
+                name: ty_arg.name.v.clone(),
+                original,
+                new: Declaration::Polytype(PolytypeDeclaration::Ordinary(ty_arg.clone())),
+            });
+        }
+        resolve_names_polytyp(ctx, symbol_table, ty_arg, true);
     }
 }
 
